@@ -193,14 +193,23 @@ def snippet(z, /, t, n):
     if (n := operator.index(n)) < 0:
         raise ValueError("n must be a non-negative integer.")
 
+    # Durations and Times come back as sample counts with a rounding error
+    # (3 * z.dt * z.sample_rate is 3.0000000000000004 at 10 Hz); a count within
+    # that resolution of a whole sample denotes that sample.
+    resolution = 1e-8
     if isinstance(t, Time):
         if z.start_time is None:
             raise ValueError("t is a Time object, but signal has no start time.")
 
         t = (t - z.start_time).to(u.s)
+        time_resolution = 2 * np.finfo(float).eps * u.day
+        resolution = max(resolution, (time_resolution * z.sample_rate).to_value(u.one))
 
     if isinstance(t, u.Quantity):
         t = (t * z.sample_rate).to_value(u.one)
+
+    if np.ndim(t) == 0 and abs(t - np.round(t)) <= resolution:
+        t = int(np.round(t))
 
     if (t < 0) or (len(z) - n < t):
         raise ValueError("Requested snippet goes out of bounds.")
